@@ -29,6 +29,12 @@ THEOREMS = {
         "MG.C04V.mutate_base2_eq",
         "MG.C04V.stage8b_spec",
     ],
+    "MG.Proofs.Lemmas.InPlaceWhere": [
+        "MG.C04W.inplace_on_owner_where_refines_numpy",
+        "MG.C04W.mutate_single_eqM",
+        "MG.C04W.finalHLM_spec",
+        "MG.C04W.opStep_applyMask",
+    ],
     "MG.Proofs.Lemmas.InPlaceView": [
         "MG.C04V.inplace_through_view_refines_numpy",
         "MG.C04V.mkDupGraph_one_view",
